@@ -87,6 +87,23 @@ fn contains_addr(hay: &[u8], a: &revm::primitives::Address) -> bool {
 // per-case execution and checks
 // ------------------------------------------------------------------------------------------------
 
+/// transaction type by the fields it carries (coverage table)
+pub fn tx_shape(tx: &TxSpec) -> &'static str {
+    if tx.auth_list.is_some() {
+        "set-code(7702)"
+    } else if !tx.blob_hashes.is_empty() || tx.max_fee_per_blob_gas.is_some() {
+        "blob(4844)"
+    } else if tx.priority_fee.is_some() {
+        if tx.to.is_none() { "dynamic-fee(1559)/create" } else { "dynamic-fee(1559)" }
+    } else if !tx.access_list.is_empty() {
+        "access-list(2930)"
+    } else if tx.to.is_none() {
+        "legacy/create"
+    } else {
+        "legacy"
+    }
+}
+
 pub struct CaseStats {
     pub executed_txs: u64,
     pub nontrivial: bool,
@@ -133,6 +150,9 @@ pub fn check_case(case: &Case, rep: &mut Report, snapshots: bool, short_circuit:
         let out = outcome_of(&res.as_ref().map(|r| r.result.clone()).map_err(|e| e.clone()));
         mon_outcomes.push(out.clone());
         rep.cell("tx_outcomes", out.class());
+        if !matches!(out, TxOutcome::Rejected(_)) {
+            rep.cell("executed_tx_shapes", tx_shape(tx));
+        }
         if let Ok(rs) = res {
             use revm::DatabaseCommit;
             let burns: BigUint = mon.burns.iter().map(|b| big(&b.amount)).sum();
